@@ -9,6 +9,7 @@ import (
 	"sort"
 	"strconv"
 	"strings"
+	"time"
 
 	vuego "github.com/titpetric/vuego"
 	"github.com/titpetric/vuego/simrt"
@@ -161,6 +162,8 @@ type tyVal struct {
 	Emb    tyEmb                        `json:"emb"`
 	Files  map[string]any               `json:"files"`
 	Link   *url.URL                     `json:"link"`
+	URL    *url.URL                     `json:"url"`
+	Dur    time.Duration                `json:"dur"`
 	IM     map[string]int               `json:"im"`
 	Nested map[string]map[string]string `json:"nested"`
 	LS     []map[string]string          `json:"ls"`
@@ -172,6 +175,8 @@ func tyValue() *tyVal {
 	return &tyVal{
 		SM: map[string]string{"k": "v", "empty": ""}, SS: []string{"x", "y"}, Arr: [2]int{7, 8}, P: in, PP: &in,
 		Emb:    tyEmb{Title: "t"},
+		URL:    &url.URL{Scheme: "https", Host: "example.test", Path: "/x"},
+		Dur:    1500 * time.Millisecond,
 		Files:  map[string]any{"index.html": "the page", "index": map[string]any{"html": "IMPOSTOR"}},
 		IM:     map[string]int{"one": 1, "zero": 0},
 		Nested: map[string]map[string]string{"a": {"b": "ab"}},
@@ -291,7 +296,7 @@ func genC17(seed uint64, run int, tier string) *RunSpec {
 			op.Op = "getstring"
 			op.Path = Pick(r, []string{"a", "b", "c", "a.b", "n"})
 			if r.Chance(25) {
-				op.Path = Pick(r, []string{"ty.link", "ty.sm.nokey", "ty.sm.k", "ty.p.name", "ty.nilp"})
+				op.Path = Pick(r, []string{"ty.link", "ty.sm.nokey", "ty.sm.k", "ty.p.name", "ty.nilp", "ty.url", "ty.dur", "ty.p.n"})
 			}
 		case k < 97:
 			op.Op = "getint"
@@ -560,7 +565,8 @@ func execC17(spec *RunSpec) *Result {
 						break
 					}
 					// ty.link (a nil *url.URL) and ty.nilp only must not panic
-					want, settled := map[string][2]string{"ty.sm.nokey": {"", "false"}, "ty.sm.k": {"v", "true"}, "ty.p.name": {"in", "true"}}[op.Path]
+					want, settled := map[string][2]string{"ty.sm.nokey": {"", "false"}, "ty.sm.k": {"v", "true"}, "ty.p.name": {"in", "true"},
+						"ty.url": {"https://example.test/x", "true"}, "ty.dur": {"1.5s", "true"}, "ty.p.n": {"3", "true"}}[op.Path]
 					if settled && (gs != want[0] || fmt.Sprint(gok) != want[1]) {
 						fail(i, op, "getstring-mismatch", "GetString disagrees with ordinary Go indexing on a typed container", "GetString(%q) = (%q,%v), Go indexing gives (%q,%s)", op.Path, gs, gok, want[0], want[1])
 					}
